@@ -9,5 +9,11 @@ GInit == Init /\ hist = <<>>
 GNext == Next /\ hist' = Append(hist, last')
 GSpec == GInit /\ [][GNext]_<<vars, hist>>
 
-Emit == PrintT(<<"GEN", ToJson([path |-> hist, exp |-> Proj(b)])>>)
+Emit == Constr => PrintT(<<"GEN", ToJson([path |-> hist, exp |-> Proj(b)])>>)
+
+\* the same, plus what the drain probe must produce when run after the path
+EmitDrain ==
+  Constr => PrintT(<<"GEN", ToJson([path |-> hist, exp |-> Proj(b),
+                          drain |-> [bvol |-> SideVol(b, "B"), avol |-> SideVol(b, "A"),
+                                     exp |-> Proj(DrainF(b))]])>>)
 =============================================================================
